@@ -77,6 +77,14 @@ def functions(G):
         return ys
     F["scan-inside"] = (f_scan, [((v3,), (0,), None)])
 
+    def f_rscan(a):
+        def body(c, t):
+            s = pp(a + c, t)
+            return c * 0.5 + s, s + c
+        c, ys = jax.lax.scan(body, 1.0, jnp.arange(3.0), reverse=True)
+        return ys + c
+    F["reverse-scan-inside"] = (f_rscan, [((v3,), (0,), None), ((2.0,), (None,), 3)])
+
     def f_cond(a, flag):
         return jax.lax.cond(flag > 0, lambda: pp(a, 1.0), lambda: pp(a, 2.0) * 1.0)
     F["cond-inside"] = (f_cond, [((v3, jnp.array([1.0, -1.0, 1.0])), (0, 0), None), ((v3, 1.0), (0, None), None)])
